@@ -77,7 +77,7 @@ class Prop:
         self.exhaustive_note = 'all strings up to %r symbols over the per-entry alphabets' % maxlen
         pools = [('S', samples.SCHEMAS), ('E', samples.ENUMS), ('J', samples.JSONS), ('R', samples.REGEXES)]
         extra = {'S': ['SL', 'SA', 'SE', 'SU'], 'E': ['EL'], 'J': ['T', 'JL'], 'R': []}
-        toks = [b'{', b'}', b'[', b']', b'"', b':', b',', b'//', b'/*', b'*/', b'#', b'@', b'|', b'\t', b' ', b'\n', b'x', b'1', b'-', b'\\']
+        toks = [b'{', b'}', b'[', b']', b'"', b':', b',', b'//', b'/*', b'*/', b'#', b'@', b'|', b'\t', b' ', b'\n', b'x', b'1', b'-', b'\\', b'%', b'%d', b'%s']
         for entry, pool in pools:
             for text in pool:
                 for conv, t in samples.encodings(text):
@@ -94,6 +94,17 @@ class Prop:
                         for e2 in extra[entry]:
                             if rng.random() < 0.3:
                                 add(e2, mb, 'mutated-' + conv)
+        # messages quote pieces of the input: formatting verbs in the input must come out as they went in
+        for entry, texts in [('S', ['{"a": %}', '1 // {"%d": 2}', '"100%" // {type: "email"}', '{\n  "50%s": 1,\n  "50%s": 2\n}', '%v', '1 // {min: %s}', '@%d', '{"a": 1} %x',
+                                    '1 // {type: "%v"}', '"a" // {regex: "%("}', '1 // {or: ["%s", "integer"]}', '{ // {allOf: "@%d"}\n}']),
+                             ('E', ['[1, %v]', '[%d]', '%s', '["a" %q]', '[1] %x']), ('R', ['%abc/', '/a/ %d', '/(%s/', '%']), ('J', ['{"a": %}', '%d', '[1, %s]', '"a" %v', '{"%d" 1}'])]:
+            for t in texts:
+                add(entry, t.encode(), 'percent')
+                if entry == 'S':
+                    for e2 in ('SL', 'SA', 'SE', 'SU'):
+                        add(e2, t.encode(), 'percent')
+                if entry == 'J':
+                    add('T', t.encode(), 'percent')
         # rule values that only fail when they are interpreted (regular expressions that do not compile, ...)
         for rx in ['+', '*', '(', ')', '[a', 'a{2,1}', '\\\\l', '(?<n', '[z-a]', '^[a|-c]+$', 'a**', '\\\\p{Nope}', '(?P<a>x)(?P<a>y)', 'x{1001}']:
             for form in ['"abc" // {regex: "%s"}', '"abc" /* {regex: "%s"} - a note */', '{\n  "k": "abc" // {regex: "%s"}\n}',
